@@ -653,24 +653,31 @@ Proof.
   - destruct Hm as (Hr & Hl). exists l. repeat split; auto.
 Qed.
 
-(* no invented value, FIFO: what the helper took is an order-preserving part of
-   everything received from the channel, which is a prefix of the initial
-   contents followed by the completed sends *)
+(* Everything about RecvQueued under a concurrent environment in one statement,
+   from a runtime-reachable channel and an empty log: the helper holds / has
+   returned l; l is EXACTLY the helper's own receives, in order (its entries
+   in the log: nothing lost, duplicated, reordered or invented by the helper);
+   at most maxValues of them; it sent nothing; it has returned after
+   maxValues+1 own steps; those receives are an order-preserving part of all
+   receives from the channel, which are a prefix of initial contents ++
+   completed sends (FIFO conservation). *)
 Theorem recv_queued_fifo sched c dn m :
   wf c ->
   let st' := run zero sched (World c dn [], RecvQueued m) in
   exists l, (snd st' = PQueued l m \/ snd st' = PRet (RList l)) /\
+    (Z.to_nat m + 1 <= count_help sched -> snd st' = PRet (RList l)) /\
+    (Z.of_nat (length l) <= Z.max 0 m)%Z /\
+    rcvd_by Helper (log (fst st')) = l /\ sent_by Helper (log (fst st')) = [] /\
     subseq l (rcvd_vals (log (fst st'))) /\
     buf c ++ sent_vals (log (fst st')) = rcvd_vals (log (fst st')) ++ buf (ch (fst st')).
 Proof.
   intros Hw st'.
-  destruct (recv_queued_any_schedule sched (World c dn []) m) as (_ & l & Hr & _ & Hp & _).
-  fold st' in Hr, Hp. cbn [log rcvd_by flat_map app] in Hr.
-  exists l. split; [exact Hp|]. split.
+  destruct (recv_queued_any_schedule sched (World c dn []) m) as (Hs & l & Hr & Hl & Hp & Ht).
+  fold st' in Hs, Hr, Hp, Ht. cbn [log rcvd_by sent_by flat_map app] in Hr, Hs.
+  exists l. repeat split; auto.
   - rewrite <- Hr. apply rcvd_by_subseq.
   - apply (conservation sched c dn (RecvQueued m) Hw).
 Qed.
-
 
 (* RecvQueuedFull: the caller's buf is always (values taken so far) ++ (untouched tail of the original) *)
 
@@ -768,90 +775,32 @@ Proof.
   - destruct Hm as (l & Hr & Hl & -> & ->). exists l. repeat split; auto.
 Qed.
 
+(* the same for RecvQueuedFull: buf = own receives ++ untouched rest of the original buf *)
+Theorem recv_queued_full_fifo sched c dn buf0 :
+  wf c ->
+  let st' := run zero sched (World c dn [], RecvQueuedFull buf0) in
+  exists l, (snd st' = PQueuedFull (length l) (l ++ skipn (length l) buf0) \/
+             snd st' = PRet (RFull (length l) (l ++ skipn (length l) buf0))) /\
+    (length buf0 + 1 <= count_help sched -> snd st' = PRet (RFull (length l) (l ++ skipn (length l) buf0))) /\
+    length l <= length buf0 /\
+    rcvd_by Helper (log (fst st')) = l /\ sent_by Helper (log (fst st')) = [] /\
+    subseq l (rcvd_vals (log (fst st'))) /\
+    buf c ++ sent_vals (log (fst st')) = rcvd_vals (log (fst st')) ++ buf (ch (fst st')).
+Proof.
+  intros Hw st'.
+  destruct (recv_queued_full_any_schedule sched (World c dn []) buf0) as (Hs & l & Hr & Hl & Hp & Ht).
+  fold st' in Hs, Hr, Hp, Ht. cbn [log rcvd_by sent_by flat_map app] in Hr, Hs.
+  exists l. repeat split; auto.
+  - rewrite <- Hr. apply rcvd_by_subseq.
+  - apply (conservation sched c dn (RecvQueuedFull buf0) Hw).
+Qed.
+
 (* ---------- alone on the channel: the exact result ---------- *)
 
 Lemma run_help_returned choices w p : returned p = true -> run zero (map AHelp choices) (w, p) = (w, p).
 Proof.
   intros H. induction choices as [|c cs IH]; [reflexivity|].
   cbn [map run fold_left step fst snd]. destruct p; try discriminate; cbn [hstep]; exact IH.
-Qed.
-
-Lemma queued_alone_gen b : forall cp cl rq dn lg acc m choices k,
-  k = Z.to_nat m - length acc -> k + 1 <= length choices ->
-  run zero (map AHelp choices) (World (Chan b cp cl [] rq) dn lg, PQueued acc m)
-  = (World (Chan (skipn k b) cp cl [] rq) dn (lg ++ map (Rcvd Helper) (firstn k b)),
-     PRet (RList (acc ++ firstn k b))).
-Proof.
-  induction b as [|x b IH]; intros cp cl rq dn lg acc m [|c cs] k Hk Hc; cbn [length] in Hc; try lia.
-  - cbn [map run fold_left step fst snd hstep]. fold (run zero (map AHelp cs)).
-    rewrite skipn_nil, firstn_nil. cbn [map]. rewrite !app_nil_r.
-    destruct (Z.of_nat (length acc) <? m)%Z; [|apply run_help_returned; reflexivity].
-    unfold try_recv; cbn [ch buf sendq closed]. destruct cl; cbn [negb]; apply run_help_returned; reflexivity.
-  - cbn [map run fold_left step fst snd hstep]. fold (run zero (map AHelp cs)).
-    destruct (Z.ltb_spec (Z.of_nat (length acc)) m) as [Hlt|Hge].
-    + unfold try_recv, upd; cbn [ch buf sendq closed negb log done cap recvq];
-      change (fold_left (step zero)) with (run zero).
-      assert (Hk' : k = S (Z.to_nat m - length (acc ++ [x]))) by (rewrite app_length; cbn [length]; lia).
-      rewrite (IH cp cl rq dn (lg ++ [Rcvd Helper x]) (acc ++ [x]) m cs _ eq_refl) by lia.
-      rewrite Hk'. cbn [skipn firstn map]. rewrite <- !app_assoc. reflexivity.
-    + assert (k = 0) as -> by lia. cbn [skipn firstn map]. rewrite !app_nil_r.
-      apply run_help_returned; reflexivity.
-Qed.
-
-(* RecvQueued with no other goroutine on the channel: for every capacity,
-   contents, open/closed state and limit, any limit+1 of its own steps (each
-   enabled) end with exactly the queued prefix, the rest left in the channel,
-   one receive logged per value, nothing else changed. *)
-Theorem recv_queued_alone b cp cl rq dn lg m choices :
-  Z.to_nat m + 1 <= length choices ->
-  run zero (map AHelp choices) (World (Chan b cp cl [] rq) dn lg, RecvQueued m)
-  = (World (Chan (skipn (Z.to_nat m) b) cp cl [] rq) dn (lg ++ map (Rcvd Helper) (firstn (Z.to_nat m) b)),
-     PRet (RList (firstn (Z.to_nat m) b))).
-Proof.
-  intros H. unfold RecvQueued.
-  rewrite (queued_alone_gen b cp cl rq dn lg [] m choices (Z.to_nat m)); cbn [length]; try lia. reflexivity.
-Qed.
-
-Lemma full_alone_gen b : forall cp cl rq dn lg l buf0 choices k,
-  k = length buf0 - length l -> length l <= length buf0 -> k + 1 <= length choices ->
-  run zero (map AHelp choices)
-      (World (Chan b cp cl [] rq) dn lg, PQueuedFull (length l) (l ++ skipn (length l) buf0))
-  = (World (Chan (skipn k b) cp cl [] rq) dn (lg ++ map (Rcvd Helper) (firstn k b)),
-     PRet (RFull (length (l ++ firstn k b)) ((l ++ firstn k b) ++ skipn (length (l ++ firstn k b)) buf0))).
-Proof.
-  induction b as [|x b IH]; intros cp cl rq dn lg l buf0 [|c cs] k Hk Hl Hc; cbn [length] in Hc; try lia.
-  - cbn [map run fold_left step fst snd hstep]. fold (run zero (map AHelp cs)).
-    rewrite full_len by exact Hl.
-    rewrite skipn_nil, firstn_nil. cbn [map]. rewrite !app_nil_r.
-    destruct (length l <? length buf0); [|apply run_help_returned; reflexivity].
-    unfold try_recv; cbn [ch buf sendq closed]. destruct cl; cbn [negb]; apply run_help_returned; reflexivity.
-  - cbn [map run fold_left step fst snd hstep]. fold (run zero (map AHelp cs)).
-    rewrite full_len by exact Hl.
-    destruct (Nat.ltb_spec (length l) (length buf0)) as [Hlt|Hge].
-    + unfold try_recv, upd; cbn [ch buf sendq closed negb log done cap recvq];
-      change (fold_left (step zero)) with (run zero).
-      rewrite full_set by exact Hlt.
-      replace (length l + 1) with (length (l ++ [x])) by (rewrite app_length; reflexivity).
-      assert (Hk' : k = S (length buf0 - length (l ++ [x]))) by (rewrite app_length; cbn [length]; lia).
-      rewrite (IH cp cl rq dn (lg ++ [Rcvd Helper x]) (l ++ [x]) buf0 cs _ eq_refl);
-        try (rewrite app_length; cbn [length]; lia).
-      rewrite Hk'. cbn [skipn firstn map]. rewrite <- !app_assoc. reflexivity.
-    + assert (k = 0) as -> by lia. cbn [skipn firstn map]. rewrite !app_nil_r.
-      apply run_help_returned; reflexivity.
-Qed.
-
-(* RecvQueuedFull alone on the channel: n = min(len buf, queued) values are
-   taken, written to buf[0..n), the rest of buf and of the channel untouched. *)
-Theorem recv_queued_full_alone b cp cl rq dn lg buf0 choices :
-  length buf0 + 1 <= length choices ->
-  let taken := firstn (length buf0) b in
-  run zero (map AHelp choices) (World (Chan b cp cl [] rq) dn lg, RecvQueuedFull buf0)
-  = (World (Chan (skipn (length buf0) b) cp cl [] rq) dn (lg ++ map (Rcvd Helper) taken),
-     PRet (RFull (length taken) (taken ++ skipn (length taken) buf0))).
-Proof.
-  intros H taken. unfold RecvQueuedFull.
-  pose proof (full_alone_gen b cp cl rq dn lg [] buf0 choices (length buf0)) as G.
-  cbn [length app skipn] in G. rewrite G; try lia. reflexivity.
 Qed.
 
 
@@ -925,6 +874,212 @@ Proof.
     + destruct (try_recv zero Helper w) as [[[w' x] ok]|]; destruct c; discriminate.
   - cbn [hstep]. destruct (try_send Helper v w); cbn [send_commit]; split; intros; try discriminate; reflexivity.
   - cbn [hstep]. destruct (try_recv zero Helper w) as [[[w' x] ok]|]; split; intros; try discriminate; reflexivity.
+Qed.
+
+
+(* ---------- alone on the channel, with senders already parked ---------- *)
+
+(* What k successful non-blocking receives leave in the buffer, and what they
+   log, from buffer b and parked senders sq (oldest first): each receive takes
+   the oldest value; while senders are parked the oldest of them completes
+   (its value moves into the freed slot, or is handed over directly when the
+   buffer is empty). *)
+Fixpoint drain_buf (k : nat) (b sq : list V) : list V :=
+  match k with
+  | 0 => b
+  | S k' => match b, sq with
+            | x :: b', s :: q => drain_buf k' (b' ++ [s]) q
+            | x :: b', [] => drain_buf k' b' []
+            | [], s :: q => drain_buf k' [] q
+            | [], [] => []
+            end
+  end.
+
+Fixpoint drain_log (k : nat) (b sq : list V) : list (event V) :=
+  match k with
+  | 0 => []
+  | S k' => match b, sq with
+            | x :: b', s :: q => Rcvd Helper x :: Sent Env s :: drain_log k' (b' ++ [s]) q
+            | x :: b', [] => Rcvd Helper x :: drain_log k' b' []
+            | [], s :: q => Sent Env s :: Rcvd Helper s :: drain_log k' [] q
+            | [], [] => []
+            end
+  end.
+
+Lemma drain_buf_spec k : forall b sq, drain_buf k b sq ++ skipn k sq = skipn k (b ++ sq).
+Proof.
+  induction k as [|k IH]; intros b sq; [reflexivity|].
+  destruct b as [|x b], sq as [|s q]; cbn [drain_buf skipn app].
+  - reflexivity.
+  - apply (IH [] q).
+  - rewrite <- (IH b []). rewrite skipn_nil. reflexivity.
+  - rewrite IH, <- app_assoc. reflexivity.
+Qed.
+
+Lemma drain_log_spec k : forall b sq,
+  rcvd_by Helper (drain_log k b sq) = firstn k (b ++ sq) /\ sent_by Env (drain_log k b sq) = firstn k sq /\
+  sent_by Helper (drain_log k b sq) = [] /\ rcvd_by Env (drain_log k b sq) = [].
+Proof.
+  induction k as [|k IH]; intros b sq; [cbn; auto|].
+  destruct b as [|x b], sq as [|s q]; cbn [drain_log app firstn].
+  - cbn; auto.
+  - destruct (IH [] q) as (I1 & I2 & I3 & I4).
+    destruct (log_cons (Sent Env s) (Rcvd Helper s :: drain_log k [] q) Helper) as (_ & _ & -> & ->).
+    destruct (log_cons (Sent Env s) (Rcvd Helper s :: drain_log k [] q) Env) as (_ & _ & -> & ->).
+    destruct (log_cons (Rcvd Helper s) (drain_log k [] q) Helper) as (_ & _ & -> & ->).
+    destruct (log_cons (Rcvd Helper s) (drain_log k [] q) Env) as (_ & _ & -> & ->).
+    rewrite I1, I2, I3, I4. cbn. auto.
+  - destruct (IH b []) as (I1 & I2 & I3 & I4).
+    destruct (log_cons (Rcvd Helper x) (drain_log k b []) Helper) as (_ & _ & -> & ->).
+    destruct (log_cons (Rcvd Helper x) (drain_log k b []) Env) as (_ & _ & -> & ->).
+    rewrite I1, I2, I3, I4. rewrite firstn_nil. cbn. auto.
+  - destruct (IH (b ++ [s]) q) as (I1 & I2 & I3 & I4).
+    destruct (log_cons (Rcvd Helper x) (Sent Env s :: drain_log k (b ++ [s]) q) Helper) as (_ & _ & -> & ->).
+    destruct (log_cons (Rcvd Helper x) (Sent Env s :: drain_log k (b ++ [s]) q) Env) as (_ & _ & -> & ->).
+    destruct (log_cons (Sent Env s) (drain_log k (b ++ [s]) q) Helper) as (_ & _ & -> & ->).
+    destruct (log_cons (Sent Env s) (drain_log k (b ++ [s]) q) Env) as (_ & _ & -> & ->).
+    rewrite I1, I2, I3, I4, <- app_assoc. cbn. auto.
+Qed.
+
+Lemma drain_nil k : forall b, drain_buf k b [] = skipn k b /\ drain_log k b [] = map (Rcvd Helper) (firstn k b).
+Proof.
+  induction k as [|k IH]; intros [|x b]; cbn; auto.
+  destruct (IH b) as [-> ->]. auto.
+Qed.
+
+Lemma queued_parked_gen k : forall b sq cp cl rq dn lg acc m choices,
+  k = Z.to_nat m - length acc -> k + 1 <= length choices ->
+  run zero (map AHelp choices) (World (Chan b cp cl sq rq) dn lg, PQueued acc m)
+  = (World (Chan (drain_buf k b sq) cp cl (skipn k sq) rq) dn (lg ++ drain_log k b sq),
+     PRet (RList (acc ++ firstn k (b ++ sq)))).
+Proof.
+  induction k as [|k IH]; intros b sq cp cl rq dn lg acc m [|c cs] Hk Hc; cbn [length] in Hc; try lia;
+    cbn [map run fold_left step fst snd hstep]; change (fold_left (step zero)) with (run zero).
+  - destruct (Z.ltb_spec (Z.of_nat (length acc)) m) as [Hlt|Hge]; [lia|].
+    cbn [drain_buf drain_log skipn firstn]. rewrite !app_nil_r. apply run_help_returned; reflexivity.
+  - destruct (Z.ltb_spec (Z.of_nat (length acc)) m) as [Hlt|Hge]; [|lia].
+    assert (Hk' : k = Z.to_nat m - length (acc ++ [zero])) by (rewrite app_length; cbn [length]; lia).
+    assert (Hl : forall y, length (acc ++ [y]) = length (acc ++ [zero])) by (intros; rewrite !app_length; reflexivity).
+    destruct b as [|x b], sq as [|s q]; unfold try_recv, upd; cbn [ch buf sendq closed negb log done cap recvq].
+    + cbn [drain_buf drain_log skipn firstn app]. rewrite !app_nil_r.
+      destruct cl; cbn [negb]; apply run_help_returned; reflexivity.
+    + rewrite (IH [] q cp cl rq dn (lg ++ [Sent Env s; Rcvd Helper s]) (acc ++ [s]) m cs) by (rewrite ?Hl; lia).
+      cbn [drain_buf drain_log skipn firstn app]. rewrite <- !app_assoc. reflexivity.
+    + rewrite (IH b [] cp cl rq dn (lg ++ [Rcvd Helper x]) (acc ++ [x]) m cs) by (rewrite ?Hl; lia).
+      cbn [drain_buf drain_log skipn firstn app]. rewrite skipn_nil, <- !app_assoc. reflexivity.
+    + rewrite (IH (b ++ [s]) q cp cl rq dn (lg ++ [Rcvd Helper x; Sent Env s]) (acc ++ [x]) m cs) by (rewrite ?Hl; lia).
+      cbn [drain_buf drain_log skipn firstn app]. rewrite <- !app_assoc. reflexivity.
+Qed.
+
+Lemma full_parked_gen k : forall b sq cp cl rq dn lg l buf0 choices,
+  k = length buf0 - length l -> length l <= length buf0 -> k + 1 <= length choices ->
+  run zero (map AHelp choices)
+      (World (Chan b cp cl sq rq) dn lg, PQueuedFull (length l) (l ++ skipn (length l) buf0))
+  = (World (Chan (drain_buf k b sq) cp cl (skipn k sq) rq) dn (lg ++ drain_log k b sq),
+     let t := firstn k (b ++ sq) in
+     PRet (RFull (length (l ++ t)) ((l ++ t) ++ skipn (length (l ++ t)) buf0))).
+Proof.
+  induction k as [|k IH]; intros b sq cp cl rq dn lg l buf0 [|c cs] Hk Hl Hc; cbn [length] in Hc; try lia;
+    cbn [map run fold_left step fst snd hstep]; change (fold_left (step zero)) with (run zero);
+    rewrite full_len by exact Hl.
+  - destruct (Nat.ltb_spec (length l) (length buf0)) as [Hlt|Hge]; [lia|].
+    cbn [drain_buf drain_log skipn firstn]. rewrite !app_nil_r. apply run_help_returned; reflexivity.
+  - destruct (Nat.ltb_spec (length l) (length buf0)) as [Hlt|Hge]; [|lia].
+    assert (Hk' : forall y, k = length buf0 - length (l ++ [y])) by (intros; rewrite app_length; cbn [length]; lia).
+    assert (Hl' : forall y, length (l ++ [y]) <= length buf0) by (intros; rewrite app_length; cbn [length]; lia).
+    assert (Hn : forall y, length l + 1 = length (l ++ [y])) by (intros; rewrite app_length; reflexivity).
+    destruct b as [|x b], sq as [|s q]; unfold try_recv, upd; cbn [ch buf sendq closed negb log done cap recvq].
+    + cbn [drain_buf drain_log skipn firstn app]. rewrite !app_nil_r.
+      destruct cl; cbn [negb]; apply run_help_returned; reflexivity.
+    + rewrite full_set by exact Hlt. rewrite (Hn s).
+      rewrite (IH [] q cp cl rq dn (lg ++ [Sent Env s; Rcvd Helper s]) (l ++ [s]) buf0 cs (Hk' s) (Hl' s)) by lia.
+      cbn [drain_buf drain_log skipn firstn app]. rewrite <- !app_assoc. reflexivity.
+    + rewrite full_set by exact Hlt. rewrite (Hn x).
+      rewrite (IH b [] cp cl rq dn (lg ++ [Rcvd Helper x]) (l ++ [x]) buf0 cs (Hk' x) (Hl' x)) by lia.
+      cbn [drain_buf drain_log skipn firstn app]. rewrite skipn_nil, <- !app_assoc. reflexivity.
+    + rewrite full_set by exact Hlt. rewrite (Hn x).
+      rewrite (IH (b ++ [s]) q cp cl rq dn (lg ++ [Rcvd Helper x; Sent Env s]) (l ++ [x]) buf0 cs (Hk' x) (Hl' x)) by lia.
+      cbn [drain_buf drain_log skipn firstn app]. rewrite <- !app_assoc. reflexivity.
+Qed.
+
+(* What the channel and the log look like after the helper took k values from
+   buffer b with senders sq parked: the result is the first k of (buffered
+   values followed by the parked senders' values); the first min(k, |sq|) parked
+   senders have completed, in order; the rest of that queue is still there, its
+   front b' in the buffer, its tail still parked; nothing else was logged. *)
+Definition parked_after (b sq : list V) (cp : nat) (cl : bool) (rq : nat) (dn : bool) (lg : list (event V))
+           (k : nat) (w' : world V) : Prop :=
+  exists b' lg', w' = World (Chan b' cp cl (skipn k sq) rq) dn lg' /\
+    b' ++ skipn k sq = skipn k (b ++ sq) /\
+    rcvd_by Helper lg' = rcvd_by Helper lg ++ firstn k (b ++ sq) /\
+    sent_by Env lg' = sent_by Env lg ++ firstn k sq /\
+    sent_by Helper lg' = sent_by Helper lg /\ rcvd_by Env lg' = rcvd_by Env lg.
+
+Lemma parked_after_drain b sq cp cl rq dn lg k :
+  parked_after b sq cp cl rq dn lg k
+    (World (Chan (drain_buf k b sq) cp cl (skipn k sq) rq) dn (lg ++ drain_log k b sq)).
+Proof.
+  exists (drain_buf k b sq), (lg ++ drain_log k b sq). destruct (drain_log_spec k b sq) as (I1 & I2 & I3 & I4).
+  rewrite !sent_by_app, !rcvd_by_app, I1, I2, I3, I4, !app_nil_r.
+  repeat split. apply drain_buf_spec.
+Qed.
+
+(* RecvQueued, no other goroutine RUNNING, any senders already parked: every
+   capacity, contents, open/closed state, parked senders and limit. *)
+Theorem recv_queued_alone_parked b sq cp cl rq dn lg m choices :
+  Z.to_nat m + 1 <= length choices ->
+  let k := Z.to_nat m in
+  exists w', run zero (map AHelp choices) (World (Chan b cp cl sq rq) dn lg, RecvQueued m)
+             = (w', PRet (RList (firstn k (b ++ sq)))) /\
+             parked_after b sq cp cl rq dn lg k w'.
+Proof.
+  intros H k. eexists. split; [|apply parked_after_drain].
+  unfold RecvQueued. rewrite (queued_parked_gen k b sq cp cl rq dn lg [] m choices); cbn [length]; try lia.
+  reflexivity.
+Qed.
+
+Theorem recv_queued_full_alone_parked b sq cp cl rq dn lg buf0 choices :
+  length buf0 + 1 <= length choices ->
+  let k := length buf0 in
+  let taken := firstn k (b ++ sq) in
+  exists w', run zero (map AHelp choices) (World (Chan b cp cl sq rq) dn lg, RecvQueuedFull buf0)
+             = (w', PRet (RFull (length taken) (taken ++ skipn (length taken) buf0))) /\
+             parked_after b sq cp cl rq dn lg k w'.
+Proof.
+  intros H k taken. eexists. split; [|apply parked_after_drain].
+  unfold RecvQueuedFull.
+  pose proof (full_parked_gen k b sq cp cl rq dn lg [] buf0 choices) as G.
+  cbn [length app skipn] in G. rewrite G; try lia. reflexivity.
+Qed.
+
+(* Corollaries: no sender parked (no other goroutine on the channel at all). For
+   every capacity, contents, open/closed state and limit, any limit+1 of the
+   helper's own steps (each enabled) end with exactly the queued prefix, the
+   rest left in the channel, one receive logged per value, nothing else changed. *)
+Theorem recv_queued_alone b cp cl rq dn lg m choices :
+  Z.to_nat m + 1 <= length choices ->
+  run zero (map AHelp choices) (World (Chan b cp cl [] rq) dn lg, RecvQueued m)
+  = (World (Chan (skipn (Z.to_nat m) b) cp cl [] rq) dn (lg ++ map (Rcvd Helper) (firstn (Z.to_nat m) b)),
+     PRet (RList (firstn (Z.to_nat m) b))).
+Proof.
+  intros H. unfold RecvQueued.
+  rewrite (queued_parked_gen (Z.to_nat m) b [] cp cl rq dn lg [] m choices); cbn [length]; try lia.
+  destruct (drain_nil (Z.to_nat m) b) as [-> ->]. rewrite skipn_nil, app_nil_r. reflexivity.
+Qed.
+
+(* RecvQueuedFull alone on the channel: n = min(len buf, queued) values are
+   taken, written to buf[0..n), the rest of buf and of the channel untouched. *)
+Theorem recv_queued_full_alone b cp cl rq dn lg buf0 choices :
+  length buf0 + 1 <= length choices ->
+  let taken := firstn (length buf0) b in
+  run zero (map AHelp choices) (World (Chan b cp cl [] rq) dn lg, RecvQueuedFull buf0)
+  = (World (Chan (skipn (length buf0) b) cp cl [] rq) dn (lg ++ map (Rcvd Helper) taken),
+     PRet (RFull (length taken) (taken ++ skipn (length taken) buf0))).
+Proof.
+  intros H taken. unfold RecvQueuedFull.
+  pose proof (full_parked_gen (length buf0) b [] cp cl rq dn lg [] buf0 choices) as G.
+  cbn [length app skipn] in G. rewrite G; try lia.
+  destruct (drain_nil (length buf0) b) as [-> ->]. rewrite skipn_nil, app_nil_r. reflexivity.
 Qed.
 
 End Proofs.
